@@ -76,3 +76,49 @@ def long_lived(cls):
     if cls.__name__ not in _LONG_LIVED:
         _LONG_LIVED[cls.__name__] = cls()
     return _LONG_LIVED[cls.__name__]
+
+
+def enum_constraint_shapes(tier, seed):
+    """A fixed model (root with three optional children A, B, C) carrying one constraint from an exhaustive family:
+    every tree of depth <= 2 over NOT + the seven binary operators on {A,B,C} (33 399) and every NOT/AND/OR tree of
+    depth <= 3 on {A,B} (182 712).  Thorough: all of the first family and a seeded sixth of the second; quick:
+    seeded slices (1/16 and 1/96).  Decides the constraint-translation half of an export on shapes random trees rarely hit."""
+    from vf.props import c18
+    d2 = c18.all_trees(2)
+    d3 = c18._trees_over(3, ["A", "B"], ["AND", "OR"])
+    s = int(seed)
+    if tier == "thorough":
+        trees = d2 + d3[s % 6::6]
+    else:
+        trees = d2[s % 16::16] + d3[s % 96::96]
+    kids = lambda: [build.rel(0, 1, [build.feat(n)]) for n in ("A", "B", "C")]   # noqa: E731
+    return [{"root": build.feat("R", kids()), "ctcs": [{"name": "K", "ast": e}]} for e in trees]
+
+
+def edit_histories(profile, max_feats=10, with_ctcs=False, max_edits=3):
+    """{"model": m, "edits": [m1, m2, ...]}: m_i+1 is a single-point structural edit of m_i (add a feature, remove
+    a leaf, change a cardinality, move a sub-tree, split / merge relations, add / remove a constraint).  The check
+    applies the edits IN PLACE to one library object (build.morph) and analyses it after every step."""
+    from vf.props import c20
+
+    @st.composite
+    def gen(draw):
+        m = draw(S.model_specs(profile, 1, max_feats, with_ctcs=with_ctcs))
+        only = c20.STRUCTURAL if with_ctcs else tuple(k for k in c20.STRUCTURAL if not k.endswith("-ctc"))
+        edits, cur = [], m
+        for _ in range(draw(st.integers(1, max_edits))):
+            label, cur = c20.apply_edit(draw, cur, only=only)
+            edits.append({"label": label, "model": cur})
+        return {"model": m, "edits": edits}
+    return gen()
+
+
+def morph_checked(fm, spec):
+    """build.morph + a harness self-check: the edited object must observe exactly as the edited spec."""
+    from vf import roundtrip as rt
+    build.morph(fm, spec)
+    obs = build.observe(fm)
+    problems = rt.wellformed(obs, "harness") + rt.same_tree(spec, obs, "harness")
+    if problems:
+        raise AssertionError(f"harness: build.morph did not produce the edited model: {problems[:2]}")
+    return fm
